@@ -195,7 +195,7 @@ def check_symmetry(desc):
     ladder = desc.get("ladder", [[4, 3], [6, 6], [8, 9]])
     for reg, sing in ladder:
         A = og.dense(og.boundary_operator("maxwell", op, rwg, rwg, snc, k, parameters=og.make_params(reg, sing)))
-        errs.append(og.relerr(A, A.T))
+        errs.append(og.relerr(A, A.T, og.entry_floor(g, "maxwell", op)))
     if errs[-1] > 1e-6 and errs[-1] > 0.05 * errs[0]:
         _fail(f"symmetry/maxwell_{op}", f"||A - A^T||/||A|| = {['%.1e' % e for e in errs]} on ladder {ladder}: not complex-symmetric up to quadrature error")
     return {"nontrivial": True, "labels": ["symmetry", op], "measured": {"errors": errs}}
